@@ -2,7 +2,7 @@
    ser <cfg> <L|B> <pos> dyn|body|typed:<name> <value tokens...>
    de  <cfg> <L|B> <pos> <nfds> v <hex>            |  de <cfg> <L|B> <pos> <nfds> s <sig> <hex>
    <cfg> is two characters: g|- (gvariant compiled in) and o|- (option-as-array). *)
-From ZV Require Import Base.Bytes Base.Res Base.Sig Base.SigParse Base.Utf8 DBus.Val DBus.Spec DBus.Ser DBus.De.
+From ZV Require Import Base.Bytes Base.Res Base.Sig Base.SigParse Base.Utf8 DBus.Val DBus.Spec DBus.Ser DBus.De DBus.DeSoundDefs.
 
 Definition cfg_of (t : bytes) : cfg :=
   match t with
@@ -71,6 +71,15 @@ Definition spec_de (e : endian) (pos : N) (top : dval -> dval) (b : bytes) (r : 
 Definition panic_class {A} (r : res cerr A) : bytes :=
   match r with Panic _ => B "maybe_dbus_align" | _ => dash end.
 
+(* known-deviation class of a decode case: a decoded value carrying a signature the D-Bus grammar forbids
+   (non-basic dict key, nesting above 32 in a signature) — zvariant's signature parser accepts those *)
+Definition de_class (top : dval -> dval) (r : res cerr (dval * N)) : bytes :=
+  match r with
+  | Ok (v, _) => if sig_lenient (top v) then B "sig_grammar_lenient" else dash
+  | Panic _ => B "maybe_dbus_align"
+  | Err _ => dash
+  end.
+
 Definition run_de (c : cfg) (e : endian) (pos : N) (nf : N) (rest : list bytes) : outp :=
   match rest with
   | [m; h] =>
@@ -78,7 +87,7 @@ Definition run_de (c : cfg) (e : endian) (pos : N) (nf : N) (rest : list bytes) 
         match hexs h with
         | Some b => let r := de_value_top c e pos b (seqN nf) in
                     {| o_model := de_obs c e pos SVariant b (match r with Ok (v, n) => Ok (VVariant v, n) | Err x => Err x | Panic p => Panic p end);
-                       o_spec := spec_de e pos VVariant b r; o_class := panic_class r |}
+                       o_spec := spec_de e pos VVariant b r; o_class := de_class VVariant r |}
         | None => bad_case
         end
       else bad_case
@@ -87,7 +96,7 @@ Definition run_de (c : cfg) (e : endian) (pos : N) (nf : N) (rest : list bytes) 
         match sig_of_tok (c_gv c) g, hexs h with
         | Some gs, Some b => let r := de_struct_top c e pos gs b (seqN nf) in
                              let g' := match gs with SStruct _ => gs | _ => SStruct [gs] end in
-                             {| o_model := de_obs c e pos g' b r; o_spec := spec_de e pos (fun v => v) b r; o_class := panic_class r |}
+                             {| o_model := de_obs c e pos g' b r; o_spec := spec_de e pos (fun v => v) b r; o_class := de_class (fun v => v) r |}
         | _, _ => {| o_model := B "ERR"; o_spec := B "ERR"; o_class := dash |}   (* signature does not parse *)
         end
       else bad_case
